@@ -402,6 +402,109 @@ Definition wdelivered (pol : lagpolicy) (fin : wst) (x : wsub) : list nat :=
   rs_out (w_s (wdrain pol (w_hist fin) (wdrain pol (w_hist fin) x))).
 Definition wpublished (n : nat) (s : wst) : nat := n - count_pub (w_prog s).
 
+(* ---------- the thread store while its sidecar is REBUILT ----------
+   ContinuityStore::replay_events serves the sidecar when try_replay accepts it; otherwise it reads the thread from the
+   log and rebuilds the sidecar (rebuild_best_effort).  A healthy sidecar is refused, too, when the reader's read of the
+   last line falls inside the append of that line (TRefuse: the environment decides that a reader's next unlocked
+   try_replay is refused); TDrop = the cache file is lost.  One writer appends frames 0..n-1, each append = take the
+   seq mutex; log append; sidecar append (O_APPEND: at the end of whatever the file holds); broadcast + release.
+   The discipline of the rebuild is a parameter:
+     rd_locked = the reader takes the writers' mutex before it reads the log and keeps it until the rebuild is done
+                 (and tries the sidecar once more under it: no append is in flight then);
+     rd_atomic = the new sidecar is written to a temporary file and renamed into place (one step) - otherwise the live
+                 file is truncated and rewritten line by line at the rebuild's own file offset, in the open.
+   /repo before the S3-live repair: neither; since it: both (read from the source: Gen/StreamOrder.v). *)
+Record rdisc := { rd_atomic : bool; rd_locked : bool }.
+Definition rdisc_ok (d : rdisc) : bool := rd_atomic d && rd_locked d.
+Inductive tactor := TW | TR (i : nat) | TRefuse (i : nat) | TDrop.
+Inductive holder := HFree | HWriter | HReader (i : nat).
+(* t_pc: 0 not subscribed; 1 unlocked try_replay; 2 waiting for the mutex; 3 try_replay under the mutex; 4 log read;
+   5 rebuild starts (atomic: the rename); 6 in-place line writes; 8 return; 9 attached *)
+Record tsub := { t_pc : nat; t_refuse : bool; t_live : option (list nat); t_snap : list nat; t_wpos : nat; t_hist : list nat }.
+Definition tfresh : tsub := {| t_pc := 0; t_refuse := false; t_live := None; t_snap := []; t_wpos := 0; t_hist := [] |}.
+(* t_wpc: 0 idle; 1 mutex taken; 2 logged; 3 sidecar line written (next: broadcast + release).  t_wk = frames broadcast *)
+Record tst := { t_n : nat; t_wpc : nat; t_wk : nat; t_log : list nat; t_side : list nat; t_lock : holder; t_subs : list tsub }.
+Definition tinit (n m : nat) : tst :=
+  {| t_n := n; t_wpc := 0; t_wk := 0; t_log := []; t_side := []; t_lock := HFree; t_subs := repeat tfresh m |}.
+(* try_replay: a missing / empty file and a file whose seqs are not 0,1,2,.. are refused *)
+Definition side_served (side : list nat) : bool := match side with [] => false | _ => sidecar_ok SeqExact 0 side end.
+Definition tdeliver (k : nat) (x : tsub) : tsub :=
+  match t_live x with
+  | None => x
+  | Some q => {| t_pc := t_pc x; t_refuse := t_refuse x; t_live := Some (q ++ [k]); t_snap := t_snap x; t_wpos := t_wpos x; t_hist := t_hist x |}
+  end.
+Definition twriter (s : tst) : tst :=
+  match t_wpc s with
+  | 0 => if Nat.ltb (t_wk s) (t_n s)
+         then match t_lock s with
+              | HFree => {| t_n := t_n s; t_wpc := 1; t_wk := t_wk s; t_log := t_log s; t_side := t_side s; t_lock := HWriter; t_subs := t_subs s |}
+              | _ => s
+              end
+         else s
+  | 1 => {| t_n := t_n s; t_wpc := 2; t_wk := t_wk s; t_log := t_log s ++ [t_wk s]; t_side := t_side s; t_lock := t_lock s; t_subs := t_subs s |}
+  | 2 => {| t_n := t_n s; t_wpc := 3; t_wk := t_wk s; t_log := t_log s; t_side := t_side s ++ [t_wk s]; t_lock := t_lock s; t_subs := t_subs s |}
+  | _ => {| t_n := t_n s; t_wpc := 0; t_wk := S (t_wk s); t_log := t_log s; t_side := t_side s; t_lock := HFree;
+            t_subs := map (tdeliver (t_wk s)) (t_subs s) |}
+  end.
+(* a write at line position pos of the rebuild's own file offset: overwrites what is there, extends at the end *)
+Fixpoint put_line (pos k : nat) (l : list nat) : list nat :=
+  match pos, l with
+  | 0, [] => [k]
+  | 0, _ :: r => k :: r
+  | S p, [] => [k]
+  | S p, x :: r => x :: put_line p k r
+  end.
+Definition tsub_at (x : tsub) (pc : nat) : tsub :=
+  {| t_pc := pc; t_refuse := t_refuse x; t_live := t_live x; t_snap := t_snap x; t_wpos := t_wpos x; t_hist := t_hist x |}.
+Definition tsub_hist (x : tsub) (h : list nat) : tsub :=
+  {| t_pc := 9; t_refuse := t_refuse x; t_live := t_live x; t_snap := t_snap x; t_wpos := t_wpos x; t_hist := h |}.
+(* one step of reader i: (the reader, the sidecar, the mutex) afterwards *)
+Definition treader (d : rdisc) (i : nat) (log side : list nat) (lock : holder) (x : tsub) : tsub * list nat * holder :=
+  match t_pc x with
+  | 0 => ({| t_pc := 1; t_refuse := t_refuse x; t_live := Some []; t_snap := t_snap x; t_wpos := t_wpos x; t_hist := t_hist x |}, side, lock)
+  | 1 => if negb (t_refuse x) && side_served side then (tsub_hist x side, side, lock)
+         else ({| t_pc := if rd_locked d then 2 else 4; t_refuse := false; t_live := t_live x; t_snap := t_snap x; t_wpos := t_wpos x; t_hist := t_hist x |}, side, lock)
+  | 2 => match lock with HFree => (tsub_at x 3, side, HReader i) | _ => (x, side, lock) end
+  | 3 => if side_served side then (tsub_hist x side, side, HFree) else (tsub_at x 4, side, lock)
+  | 4 => ({| t_pc := 5; t_refuse := t_refuse x; t_live := t_live x; t_snap := log; t_wpos := t_wpos x; t_hist := t_hist x |}, side, lock)
+  | 5 => if rd_atomic d then (tsub_at x 8, t_snap x, lock)
+         else ({| t_pc := 6; t_refuse := t_refuse x; t_live := t_live x; t_snap := t_snap x; t_wpos := 0; t_hist := t_hist x |}, [], lock)
+  | 6 | 7 => match nth_error (t_snap x) (t_wpos x) with
+             | Some k => ({| t_pc := 6; t_refuse := t_refuse x; t_live := t_live x; t_snap := t_snap x; t_wpos := S (t_wpos x); t_hist := t_hist x |},
+                          put_line (t_wpos x) k side, lock)
+             | None => (tsub_at x 8, side, lock)
+             end
+  | 8 => (tsub_hist x (t_snap x), side, if rd_locked d then HFree else lock)
+  | _ => (x, side, lock)
+  end.
+Definition tstep (d : rdisc) (s : tst) (a : tactor) : tst :=
+  match a with
+  | TW => twriter s
+  | TR i => match nth_error (t_subs s) i with
+            | None => s
+            | Some x => let '(x', side', lock') := treader d i (t_log s) (t_side s) (t_lock s) x in
+                        {| t_n := t_n s; t_wpc := t_wpc s; t_wk := t_wk s; t_log := t_log s; t_side := side'; t_lock := lock';
+                           t_subs := upd_nth i (fun _ => x') (t_subs s) |}
+            end
+  | TRefuse i => {| t_n := t_n s; t_wpc := t_wpc s; t_wk := t_wk s; t_log := t_log s; t_side := t_side s; t_lock := t_lock s;
+                    t_subs := upd_nth i (fun x => {| t_pc := t_pc x; t_refuse := true; t_live := t_live x; t_snap := t_snap x; t_wpos := t_wpos x; t_hist := t_hist x |}) (t_subs s) |}
+  | TDrop => {| t_n := t_n s; t_wpc := t_wpc s; t_wk := t_wk s; t_log := t_log s; t_side := []; t_lock := t_lock s; t_subs := t_subs s |}
+  end.
+Definition tfinal (d : rdisc) (n m : nat) (sched : list tactor) : tst := fold_left (tstep d) sched (tinit n m).
+Definition tattached (x : tsub) : bool := Nat.eqb (t_pc x) 9.
+(* the handler: history first, then the live frames above the history's last seq *)
+Definition tdelivered (x : tsub) : list nat :=
+  t_hist x ++ filter (keep FilterGtLast (last_seq (t_hist x))) (match t_live x with Some q => q | None => [] end).
+
+(* ExactlyOnce for the thread store: what an attached reader has (history, then the live frames above it) is
+   0..q-1, q covers every frame broadcast so far, and q = n once the writer has finished *)
+Definition TExactlyOnce (n : nat) (fin : tst) (x : tsub) : Prop :=
+  exists q, tdelivered x = seq 0 q /\ t_wk fin <= q /\ q <= n /\ (t_wk fin = n -> q = n).
+(* a run in which the writer has finished and an attached reader does not have 0..n-1 *)
+Definition TLoses (d : rdisc) (n m : nat) (sched : list tactor) : Prop :=
+  t_wk (tfinal d n m sched) = n /\
+  exists i x, nth_error (t_subs (tfinal d n m sched)) i = Some x /\ tattached x = true /\ tdelivered x <> seq 0 n.
+
 (* ---------- correspondence ---------- *)
 Definition enc_list (l : list nat) : list N := nlen l :: map N.of_nat l.
 Definition observe (c : cfg) (s : st) : list N :=
